@@ -372,6 +372,7 @@ func buildCompact(args []string) int {
 	for k := 1; k <= *n; k++ {
 		src = append(src, pointFeature(k))
 	}
+	src = append(src, extras(seq(1, *n))...)
 	data, err := compact.BuildInMemory(src, &compact.Options{Goroutines: 1, PointsScratchOutputType: compact.OutputTypeMemory})
 	if err != nil {
 		fmt.Fprintln(os.Stderr, err)
@@ -402,10 +403,35 @@ func pointFeature(k int) *ingest.GenericFeature {
 	}
 }
 
+// extras are features of the types that worlds enumerate AFTER points (a path over the first two points, a relation
+// of the first point): an enumeration that fails on a point must not carry on with them and forget the error.
+// The callback lets them pass (they are not items of the case).
+func extras(items []int) []ingest.Feature {
+	var out []ingest.Feature
+	if len(items) >= 2 {
+		p := &ingest.GenericFeature{ID: b6.FeatureID{Type: b6.FeatureTypePath, Namespace: ns, Value: 9001}}
+		p.ModifyOrAddTag(b6.Tag{Key: b6.PathTag, Value: b6.NewExpressions([]b6.AnyExpression{
+			b6.FeatureIDExpression(pointID(items[0])), b6.FeatureIDExpression(pointID(items[1]))})})
+		p.AddTag(b6.Tag{Key: "#highway", Value: b6.NewStringExpression("path")})
+		out = append(out, p)
+	}
+	if len(items) >= 1 {
+		r := ingest.NewRelationFeature(1)
+		r.RelationID = b6.RelationID{Namespace: ns, Value: 9002}
+		r.Members[0] = b6.RelationMember{ID: pointID(items[0]), Role: "m"}
+		r.Tags = []b6.Tag{{Key: "#type", Value: b6.NewStringExpression("extra")}}
+		out = append(out, r)
+	}
+	return out
+}
+
 func basicWorld(items []int, withRelations bool) (b6.World, error) {
 	src := ingest.MemoryFeatureSource{}
 	for _, k := range items {
 		src = append(src, pointFeature(k))
+	}
+	if !withRelations {
+		src = append(src, extras(items)...)
 	}
 	if withRelations {
 		// relation j has members P_1..P_j: P_i is referenced by len-i+1 relations, so FeedReferencesFirst
@@ -460,6 +486,9 @@ func buildInstance(c *streamCase, t *tracker) (*instance, error) {
 			return nil
 		}
 		id := f.FeatureID()
+		if id.Namespace == ns && id.Type != b6.FeatureTypePoint && id.Value >= 9000 {
+			return nil // one of the extras
+		}
 		if id.Namespace != ns || id.Type != b6.FeatureTypePoint {
 			t.note("unexpected feature " + id.String())
 			return nil
@@ -591,6 +620,11 @@ func buildInstance(c *streamCase, t *tracker) (*instance, error) {
 		w := ingest.NewBasicMutableWorld()
 		for k := 1; k <= n; k++ {
 			if err := w.AddFeature(pointFeature(k)); err != nil {
+				return nil, err
+			}
+		}
+		for _, x := range extras(seq(1, n)) {
+			if err := w.AddFeature(x); err != nil {
 				return nil, err
 			}
 		}
